@@ -233,7 +233,7 @@ func (env *Env) typ(t *rapid.T, o TypeGenOpts, depth int, cmp bool, inGenSig boo
 
 var fieldNames = []string{"a", "b", "c", "X", "Y", "Z", "_"}
 var methodNames = []string{"M", "N", "P", "m", "n"}
-var tagPool = []string{"", "", "", `json:"a"`, `k:"v w" x:"y"`, "has`backquote", "new\nline", `q"uote`, " "}
+var tagPool = []string{"", "", "", `json:"a"`, `k:"v w" x:"y"`, "has`backquote", "new\nline", `q"uote`, " ", "cr\rlf\r\n", "trailing\r", "tab\there"}
 
 func (env *Env) structDesc(t *rapid.T, o TypeGenOpts, d int, cmp, inGenSig bool) *Desc {
 	n := rapid.IntRange(0, 4).Draw(t, "nfields")
